@@ -47,17 +47,17 @@ pub(crate) static mut REMOVE_N: usize = 0;
 pub(crate) static mut REMOVE_OFFS: [u64; 2] = [0; 2];
 pub(crate) static mut REMOVE_CALLS: usize = 0;
 pub(crate) static mut REMOVE_ASKED_B0: u8 = 0;
-pub(crate) fn scripted_remove(hash: &HashSum) -> Option<Option<ChunkLocation>> {
+pub(crate) fn remove_is_scripted() -> bool {
+    unsafe { SCRIPTED_REMOVE != 0 }
+}
+pub(crate) fn scripted_remove(hash: &HashSum) -> Option<ChunkLocation> {
     let mode = unsafe { SCRIPTED_REMOVE };
-    if mode == 0 {
-        return None;
-    }
     unsafe {
         REMOVE_CALLS += 1;
         REMOVE_ASKED_B0 = hash.slice()[0];
     }
     if mode == 1 {
-        return Some(None);
+        return None;
     }
     let n = unsafe { REMOVE_N };
     let mut offsets = Vec::with_capacity(2);
@@ -65,7 +65,42 @@ pub(crate) fn scripted_remove(hash: &HashSum) -> Option<Option<ChunkLocation>> {
     if n > 1 {
         offsets.push(unsafe { REMOVE_OFFS[1] });
     }
-    Some(Some(ChunkLocation { size: unsafe { REMOVE_SIZE }, offsets }))
+    Some(ChunkLocation { size: unsafe { REMOVE_SIZE }, offsets })
+}
+
+// ---------------------------------------------------------------------------
+// hook for executor-level harnesses (proofs/clone_output_glue.rs, c03_exec_*): when PLANNER_SCRIPTED is set,
+// `strip_chunks_already_in_place` and `reorder_ops` answer from this script (prologues inserted by the mirror
+// generator under cfg(kani), guarded by a plain bool so that the real planner is not explored).
+// ---------------------------------------------------------------------------
+pub(crate) static mut PLANNER_SCRIPTED: bool = false;
+pub(crate) static mut STRIP_RET: (usize, u64) = (0, 0);
+pub(crate) static mut PLAN: Option<Vec<ReorderOp<'static>>> = None;
+pub(crate) static mut PLANNER_CALLS: usize = 0;
+pub(crate) fn planner_is_scripted() -> bool {
+    unsafe { PLANNER_SCRIPTED }
+}
+pub(crate) fn scripted_strip() -> (usize, u64) {
+    unsafe { STRIP_RET }
+}
+pub(crate) fn scripted_reorder_ops() -> Vec<ReorderOp<'static>> {
+    unsafe {
+        PLANNER_CALLS += 1;
+        PLAN.take().expect("harness did not script a plan")
+    }
+}
+
+/// hook for feed-level glue harnesses: count add_chunk calls instead of executing them
+pub(crate) static mut ADD_SCRIPTED: bool = false;
+pub(crate) static mut ADD_CALLS: usize = 0;
+pub(crate) fn add_chunk_is_scripted() -> bool {
+    unsafe { ADD_SCRIPTED }
+}
+pub(crate) fn scripted_add_chunk(hash: HashSum, _size: usize, _offsets: &[u64]) {
+    unsafe {
+        ADD_CALLS += 1;
+    }
+    std::mem::forget(hash);
 }
 
 /// records what a key feeds to a Hasher (<= 80 bytes)
